@@ -259,7 +259,7 @@ def run_case(case, rec):
         else:
             marker = rng.choice(["?", "."])
             per = {c: rng.choice(["?", "."]) for c in ("pdbx_PDB_ins_code", "label_alt_id", "occupancy", "pdbx_formal_charge", "type_symbol")} if rng.random() < 0.5 else {}
-            extra = None
+            extra, etype = None, None
             if rng.random() < 0.35:
                 # modified-residue and entity categories, as deposited files carry them (names stay as written)
                 mods, seen = [], set()
@@ -269,7 +269,8 @@ def run_case(case, rec):
                         seen.add(k)
                         mods.append([str(len(mods) + 1), r["chain"], r["resname"], str(r["resseq"]), r["chain"], r["resname"], str(r["resseq"]), r["icode"] or rng.choice(["?", "."]),
                                      {"PSU": "U", "5MC": "C", "2MG": "G", "H2U": "U"}[r["resname"]], "modified"])
-                extra = [("entity", ["id", "type"], [["1", "polymer"]], "kv"), ("entity_poly", ["entity_id", "type"], [["1", rng.choice(["polyribonucleotide", "polypeptide(L)"])]], "kv")]
+                etype = rng.choice(["polyribonucleotide", "polydeoxyribonucleotide", "polydeoxyribonucleotide/polyribonucleotide hybrid", "peptide nucleic acid", "polypeptide(L)"])
+                extra = [("entity", ["id", "type"], [["1", "polymer"]], "kv"), ("entity_poly", ["entity_id", "type"], [["1", etype]], "kv")]
                 if mods:
                     extra.append(("pdbx_struct_mod_residue", ["id", "label_asym_id", "label_comp_id", "label_seq_id", "auth_asym_id", "auth_comp_id", "auth_seq_id", "PDB_ins_code", "parent_comp_id", "details"], mods, "loop"))
             order = None
@@ -278,6 +279,23 @@ def run_case(case, rec):
                 random.Random(f"order:{case['i']}").shuffle(order)
             text = emit.emit_cif(rows, null=marker, nulls=per, label_seq=rng.choice(["index", "auth"]), extra_cats=extra, col_order=order)
             desc = {"i": case["i"], "fmt": fmt, "null": marker, "nulls": per, "extra-categories": [c[0] for c in extra or []], "item-order": "shuffled" if order else "usual"}
+        if fmt == "cif" and extra and etype != "polypeptide(L)":
+            # every atom belongs to an entity that IS a nucleic-acid polymer (one of the four nucleic-acid types):
+            # reading nucleic acids only must return what the plain reading returns
+            from rnapolis import parser as _parser
+
+            pth = emit.scratch_path(".cif")
+            with open(pth, "w") as fh:
+                fh.write(text)
+            try:
+                with open(pth) as fh:
+                    full = _parser.read_3d_structure(fh, None)
+                with open(pth) as fh:
+                    only = _parser.read_3d_structure(fh, None, nucleic_acid_only=True)
+                key = lambda st: [(r.model, _ident(r, fmt), tuple((a.name, a.x, a.y, a.z) for a in r.atoms)) for r in st.residues]
+                rec.check("filter.nucleic-acid-entities-kept", key(full) == key(only), lambda: {"case": desc, "entity_poly.type": etype, "residues": [len(full.residues), len(only.residues)]})
+            except Exception as e:
+                rec.violation("read.no-crash", {"case": desc, "info": repr(e)[:300], "option": "nucleic_acid_only"}, mechanism=f"crash:{type(e).__name__}")
         models = sorted({r["model"] for r in rows})
         reqs = [None] + models + [models[-1] + 7]
         rec.mark_nontrivial(len(rows) >= 2)
